@@ -57,6 +57,44 @@ def rule_r1(facts, col, sites):
                 col.ok("C06.R1", key, body.where(tgt), "a pass containing %s always continues with another pass" % v)
 
 
+def rule_r5(facts, col, sites):
+    """a pass in which no block asked to be called again ends the run: from the head of the pass loop, with the Again and
+    Pending arms (and the error / cancel exits) cut away, a `return` is reachable and the head is NOT reached again - otherwise
+    run() spins forever over blocks that all said they are waiting"""
+    for ws in sites:
+        body = ws.body
+        base = body.q
+        if not ws.complete():
+            continue
+        comp, heads = outer_loop(body, ws.wbb)
+        if comp is None or not heads:
+            continue
+        cut = {(s, t) for (_, s, t) in cancel_polls(body)}
+        for v in ("Again", "Pending"):
+            tgt = ws.arms.get(v)
+            if tgt is not None:
+                cut.add((ws.ret_switch, tgt))
+        if ws.err_edge and ws.err_edge[1] is not None:
+            cut.add(ws.err_edge)
+        key = base + ":settled-pass-ends"
+        h = heads[0]
+        r, edges = flag_search(body, [h], cut_edges=cut)
+        if edges is None:
+            col.silent("C06.R5", key, body.where(h), "path search gave up")
+            continue
+        rets = [b for b in r if body.term(b)["k"] == "return"]
+        back = [(a, b) for (a, b) in edges if b == h and a in comp]
+        if not rets:
+            col.bad("C06.R5", key, body.where(h), "after a pass of settled verdicts (no Again/Pending) run() can never return: the graph "
+                    "hangs at quiescence", {})
+        elif back:
+            col.bad("C06.R5", key, body.where(back[0][0]),
+                    "after a pass in which every block reported a settled verdict (wait / EOF) the runner can start another pass "
+                    "instead of returning: with nothing left to do it spins (or sleeps) forever", {})
+        else:
+            col.ok("C06.R5", key, body.where(h), "a pass without Again/Pending leads to return and never to another pass")
+
+
 def _retired_vec(body, ws):
     """Find the `retired` flag container: work() is dominated by the false edge of a switch on
     *Index::index(&V, i). Returns (local V, switch bb, skip target)"""
@@ -241,6 +279,8 @@ def run(ctx):
     rule_r1(facts, ctx, sites)
     rule_r2(facts, ctx, sites)
     rule_r3(facts, ctx, sites)
+    rule_r5(facts, ctx, sites)
+    ctx.floor("C06.R5", 1, "Graph::run pass loop")
     from . import c09
     c09.rule_r5(facts, ctx, rule_id="C06.R4")
     ctx.floor("C06.R4", 60, "WaitForStream verdicts with a visible amount (no demand that grows with a peer's backlog)")
